@@ -371,9 +371,11 @@ class C07(core.Check):
         return out
 
     def gen_cases(self, rng: random.Random, tier: str) -> List[dict]:
-        n = 260 if tier == "quick" else 4000
+        n = 260 if tier == "quick" else 2400
         cases = [self._asm_case(rng) for _ in range(n)]
         cases += [self._face_case(rng) for _ in range(n // 4)]
+        # ill-formed stream: both sides must refuse (the model answers `bad-op`, never a default)
+        cases += [{"kind": "reject", "what": w} for w in ("face3", "edges5", "side5", "project3", "location")]
         if tier == "quick":
             # one of every kind on the closing edges and on an inverted face
             for kind in KINDS:
@@ -433,7 +435,7 @@ class C07(core.Check):
         warnings.simplefilter("ignore")
         import classy_blocks as cb
 
-        pos = [fl(unfrs(l)) for l in case["locs"]]
+        pos = [fl(unfrs(l)) for l in case.get("locs", [])]
         loc_of = {tuple(p): i for i, p in enumerate(pos)}
         objs: Dict[int, Any] = {}
 
@@ -446,6 +448,22 @@ class C07(core.Check):
                 out["pts"] = [[core.rat(float(x)) for x in p] for p in data.curve.array.points]
             return out
 
+        if case["kind"] == "reject":
+            sq = [[0, 0, 0], [1, 0, 0], [1, 1, 0], [0, 1, 0]]
+            try:
+                if case["what"] == "face3":
+                    cb.Face(sq[:3])
+                elif case["what"] == "edges5":
+                    cb.Face(sq, [None] * 5)
+                elif case["what"] == "side5":
+                    cb.Loft(cb.Face(sq), cb.Face([[x, y, 1] for x, y, _ in sq])).add_side_edge(4, cb.Arc([0, 0, 0.5]))
+                elif case["what"] == "project3":
+                    cb.Face(sq, [cb.Project(["a", "b", "c"]), None, None, None])
+                else:
+                    cb.Face([sq[0], sq[1], sq[2], None])  # a corner without a location
+            except Exception as e:
+                return {"reject": type(e).__name__}
+            return {"accepted": True}
         if case["kind"] == "face":
             f = case["face"]
             face = cb.Face([pos[l] for l in f["pts"]], [self._make(cb, d, objs) for d in f["edges"]])
@@ -561,6 +579,19 @@ class C07(core.Check):
         return ".".join(map(str, f["pts"])) + "@" + ";".join(self._datum_req(d, locs) for d in f["edges"]) + "@" + "+".join(ops)
 
     def requests(self, case: dict, impl: Any) -> List[str]:
+        if case["kind"] == "reject":
+            ltab = "0/1,0/1,0/1;1/1,0/1,0/1;1/1,1/1,0/1;0/1,1/1,0/1"
+            ln = "line~0~-~0/1~-"
+            d4 = ";".join([ln] * 4)
+            face = f"0.1.2.3@{d4}@"
+            bad = {
+                "face3": f"0.1.2@{d4}@!{face}!{d4}",
+                "edges5": f"0.1.2.3@{d4};{ln}@!{face}!{d4}",
+                "side5": f"{face}!{face}!{d4};arc~1~0/1,0/1,1/2~0/1~-",
+                "project3": f"0.1.2.3@project~1~-~0/1~-;{ln};{ln}@!{face}!{d4}",  # three labels cannot be expressed: 3 data
+                "location": f"0.1.2.9@{d4}@!{face}!{d4}",
+            }[case["what"]]
+            return [f"c07.asm {ltab} {bad}"]
         locs = case["locs"]
         ltab = ";".join(self._v3(l) for l in locs)
         if case["kind"] == "face":
@@ -578,6 +609,10 @@ class C07(core.Check):
 
     def compare(self, case: dict, impl: Any, model: List[str]) -> Optional[str]:
         ans = model[0]
+        if case["kind"] == "reject":
+            if "reject" in impl and ans == "bad-op":
+                return None
+            return f"ill-formed input {case['what']}: implementation {impl}, model {ans}"
         if case["kind"] == "face":
             pts = "[" + ",".join(map(str, impl["pts"])) + "]"
             eds = ";".join(
@@ -666,6 +701,8 @@ class C07(core.Check):
         return polyline_length([fn(i / 4000) for i in range(4001)]), 2e-3
 
     def oracle(self, case: dict, impl: Any) -> List[dict]:
+        if case["kind"] == "reject":
+            return []  # which inputs must be refused is C20's subject
         if case["kind"] == "face":
             return self._oracle_face(case, impl)
         out: List[dict] = []
@@ -868,16 +905,20 @@ class C07(core.Check):
     def nontrivial_key(self, case, impl):
         import json
 
+        if case["kind"] == "reject":
+            return None
         if case["kind"] == "asm" and not any(d for op in case["ops"] for d in op["bottom"]["edges"] + op["top"]["edges"] + op["side"]):
             return None
         return json.dumps(case, sort_keys=True)
 
     def classify(self, case, impl):
+        if case["kind"] == "reject":
+            return "ill-formed:" + (impl.get("reject", "accepted") if isinstance(impl, dict) else "?")
         if case["kind"] == "face":
             return "face:" + "+".join(sorted({o[0] for o in case["face"]["fops"]}))
-        kinds = sorted({x["cls"] for x in self._described(case)})
-        dup = len(case["ops"]) > 1
-        return f"asm:{len(case['ops'])}op:" + ("+".join(kinds) or "no-data") + (":shared" if dup else "")
+        uses = sorted({{"inverted-face": "inverted", "shifted-face": "shifted"}.get(x["cls"], "given") for x in self._described(case)})
+        wedge = any(len(set(op["bottom"]["pts"])) < 4 for op in case["ops"])
+        return f"asm:{len(case['ops'])}op:" + ("+".join(uses) or "no-data") + (":wedge" if wedge else "")
 
     def static_checks(self) -> List[str]:
         """the direction table the model computes from the generated tables, against the convention"""
